@@ -25,6 +25,9 @@ def _regs_used(x, acc):
             _regs_used(v, acc)
 
 
+NO_RESET = bool(__import__('os').environ.get('GOBMC_NORESET'))
+
+
 class Liveness:
     def __init__(self):
         self.cache = {}
@@ -104,7 +107,7 @@ class Run:
         self.sched = []       # per step: list of (tid, descr, cond, opt)
         self.fires = []
         self.prev = None
-        self.foata = True
+        self.foata = not bool(__import__("os").environ.get("GOBMC_NOFOATA"))
         self.npar = 0
         self.can_fire_last = False
         self.last_fires = False
@@ -156,6 +159,21 @@ class Run:
                     out += [(g, c) for g, c in alts_of(m.ev(alt, fr, s["chan"])) if c is not None]
         return out
 
+    def receivers_waiting(self, parked):
+        """[(tid, guard, chan)]: parked receivers able to take a value handed over on an unbuffered channel.  A receiver
+        (in particular a select over several channels) accepts one hand-over at a time: while a value put by one sender
+        is pending on any of its channels it is not a waiter for a second one."""
+        m = self.m
+        out = []
+        for t, a in parked:
+            chans = self.recv_chans(a)
+            if not chans:
+                continue
+            pend = OR(*[AND(g, I.slot_full(m, a, c)) for g, c in chans]) if len(chans) > 1 else False
+            for g, c in chans:
+                out.append((t.tid, AND(a.guard, g, NOT(pend)), c))
+        return out
+
     def options(self, alt, waiters):
         """[(cond, opt, read_objs)] : ways the parked alternative can move now (cond excludes alt.guard)"""
         m = self.m
@@ -185,10 +203,14 @@ class Run:
         op = ins["op"]
 
         def unbuf_wait(chs):
+            # a hand-over on an unbuffered channel also claims the receiving thread (two hand-overs to one receiver
+            # are dependent transitions: they never fire in the same step)
             out = set()
             for g, c in chs:
                 if c is not None and m.hget(alt, c.obj)[0] == 0:
                     out.add(("wait", c.obj))
+                    for rt in getattr(waiters, "tids", lambda ch: ())(c):
+                        out.add(("rcv", rt))
             return out
         if op == "Send":
             chs = alts_of(m.ev(alt, fr, ins["chan"]))
@@ -268,21 +290,20 @@ class Run:
             return True
         return False
 
-    def step(self, k):
+    def step(self, k, retry=False):
         """parallel-step semantics: any set of pairwise independent enabled transitions may fire together;
         in Foata normal form (every transition fired at step k>0 depends on one fired at step k-1)"""
         m = self.m
         m.step = k
-        m.reset_solver()
+        if not NO_RESET:
+            m.reset_solver()
         parked = [(t, a) for t in m.threads for a in t.alts]
-        rwait = []
-        for t, a in parked:
-            for g, c in self.recv_chans(a):
-                rwait.append((t.tid, AND(a.guard, g), c))
+        rwait = self.receivers_waiting(parked)
 
         def mk_waiters(tid):
             def waiters(ch):
                 return OR(*[g for (tt, g, c) in rwait if tt != tid and c == ch])
+            waiters.tids = lambda ch: {tt for (tt, g, c) in rwait if tt != tid and c == ch and g is not False}
             return waiters
 
         cands = []   # (thread, alt, cond, opt, read objs)
@@ -293,6 +314,11 @@ class Run:
             # event-driven examination: an alternative that was examined before and whose footprint no
             # transition of the previous step touched is exactly as (un)enabled as it was, and by the
             # Foata rule it cannot fire now; it is not re-examined
+            if retry and getattr(a, "seen_step", None) == k:
+                # second pass over the same step after state-preserving transitions were set aside
+                if a.en_last is not False and a.en_last is not None:
+                    skipped_en.append(AND(a.guard, a.en_last))
+                continue
             if a.foot is not None and prev is not None and self.foata:
                 touched = False
                 for ptid in prev["fires"]:
@@ -310,6 +336,7 @@ class Run:
             if opts == "quiesce":
                 quiesce.append((t, a))
                 continue
+            a.seen_step = k
             a.foot = (set(), set())
             a.en_last = False
             for g_, c_ in self.recv_chans(a):
@@ -339,6 +366,7 @@ class Run:
         W = {tid: set() for tid in tids}
         for (t, a, cond, opt, robjs) in live:
             R[t.tid].update(robjs)
+            W[t.tid].update(o for o in robjs if type(o) is tuple and o and o[0] == "rcv")
             for g_, c_ in self.recv_chans(a):
                 W[t.tid].add(("wait", c_.obj))
         deterministic = (len(live) == 1 and not m.feasible(NOT(AND(live[0][1].guard, live[0][2]))))
@@ -353,6 +381,7 @@ class Run:
             if j not in optb:
                 optb[j] = z3.Bool("o!%d!%d" % (k, j))
             return optb[j]
+        nstutter = 0
         by_alt = {}
         for c in live:
             by_alt.setdefault(id(c[1]), []).append(c)
@@ -363,14 +392,11 @@ class Run:
             t, a = lst[0][0], lst[0][1]
             fire = fires[t.tid]
             multi = (len(lst) > 1 or lst[0][3] is not None) and not deterministic
-            if not deterministic:
-                if multi:
-                    m.add_constraint(z3.Implies(z3.And(fire, B(a.guard)),
-                                                z3.Or(*[z3.And(B(cond), optbit(opt)) for (_, _, cond, opt, _) in lst])))
-                else:
-                    m.add_constraint(z3.Implies(z3.And(fire, B(a.guard)), B(lst[0][2])))
+            kept = []
+            a.spin = False
+            a.en_last = False
+            a.seen_step = k
             for (_, _, cond, opt, robjs) in lst:
-                en_t[t.tid].append(AND(a.guard, cond))
                 child = a.copy()
                 g = AND(a.guard, cond, fire)
                 if multi:
@@ -386,9 +412,22 @@ class Run:
                 child.ninstr = 0
                 child.ov = {}
                 child.rd = set()
-                sched.append((t.tid, self.describe(a, opt), g, opt))
+                mark = (len(m.log), len(m.violations), len(m.pending_spawns), len(m.reached), len(m.asserted), len(m.constraints))
                 m.stats["macro_steps"] += 1
                 res = m.run_alt(child)
+                if self.is_stutter(a, res, mark):
+                    # a transition that returns to the same location without changing anything (e.g. a select that keeps
+                    # taking an already closed Done channel): not scheduled - it would only stutter - but remembered as a spin
+                    if not deterministic:
+                        m.add_constraint(NOT(g))
+                    a.spin = OR(a.spin, cond)
+                    nstutter += 1
+                    m.stats["stutters"] = m.stats.get("stutters", 0) + 1
+                    continue
+                kept.append((cond, opt))
+                a.en_last = OR(a.en_last, cond)
+                en_t[t.tid].append(AND(a.guard, cond))
+                sched.append((t.tid, self.describe(a, opt), g, opt))
                 self.footprint_after(t.tid, res, R, W)
                 if a.foot is None:
                     a.foot = (set(), set())
@@ -399,12 +438,25 @@ class Run:
                         for g_, c_ in self.recv_chans(r):
                             a.foot[1].add(("wait", c_.obj))
                 results += res
+            if not deterministic:
+                if not kept:
+                    pass
+                elif multi:
+                    m.add_constraint(z3.Implies(z3.And(fire, B(a.guard)),
+                                                z3.Or(*[z3.And(B(cond), optbit(opt)) for (cond, opt) in kept])))
+                else:
+                    m.add_constraint(z3.Implies(z3.And(fire, B(a.guard)), B(kept[0][0])))
             if deterministic:
-                a.guard = False
-            else:
+                if kept:
+                    a.guard = False
+            elif kept:
                 a.guard = AND(a.guard, NOT(fire))
                 if not m.feasible(a.guard):
                     a.guard = False
+        if not sched:
+            # nothing but state-preserving transitions (or nothing at all) could fire
+            self.nspin_steps = getattr(self, "nspin_steps", 0) + (1 if nstutter else 0)
+            return "retry" if (nstutter and not retry) else False
         ob = list(optb.values())
         for i in range(len(ob)):
             for j in range(i + 1, len(ob)):
@@ -431,7 +483,7 @@ class Run:
         prev = self.prev
         legal = {}
         for tid in tids:
-            en = OR(*en_t[tid])
+            en = OR(*en_t[tid]) if en_t[tid] else False
             if prev is None or not self.foata:
                 dep = True
             else:
@@ -452,6 +504,36 @@ class Run:
         self.prev = dict(fires=fires, R=R, W=W, confl=confl, spawned=self.new_threads_last)
         self.npar = max(self.npar, len(tids))
         return not stalled
+
+    def is_stutter(self, a, res, mark):
+        r = self._is_stutter(a, res, mark)
+        if self.verbose and not r[0] and len(res) == 1 and res[0].status == "parked" and res[0].loc() == a.loc():
+            print("      not a stutter:", r[1], flush=True)
+        return r[0]
+
+    def _is_stutter(self, a, res, mark):
+        m = self.m
+        if len(res) != 1:
+            return (False, 'L%d' % __import__('sys')._getframe().f_lineno)
+        r = res[0]
+        if r.status != "parked" or r.ov or r.ack != a.ack or r.pending is not None:
+            return (False, 'L%d' % __import__('sys')._getframe().f_lineno)
+        if mark != (len(m.log), len(m.violations), len(m.pending_spawns), len(m.reached), len(m.asserted), len(m.constraints)):
+            return (False, 'L%d' % __import__('sys')._getframe().f_lineno)
+        if r.loc() != a.loc() or (r.info is None) != (a.info is None):
+            return (False, 'L%d' % __import__('sys')._getframe().f_lineno)
+        if r.nalloc != a.nalloc or r.nspawn != a.nspawn:
+            return (False, 'L%d' % __import__('sys')._getframe().f_lineno)
+        self.prune(r)
+        b = a.copy()
+        self.prune(b)
+        for fa, fb in zip(b.frames, r.frames):
+            if set(fa.regs) != set(fb.regs):
+                return (False, 'L%d' % __import__('sys')._getframe().f_lineno)
+            for k in fa.regs:
+                if not same(fa.regs[k], fb.regs[k]):
+                    return (False, 'L%d' % __import__('sys')._getframe().f_lineno)
+        return (True, '')
 
     def spawned_by(self, t1, t2):
         # thread t2 may have been created by t1's previous step -> dependent
@@ -630,7 +712,10 @@ class Run:
                     m.stats["solver_checks"], m.stats["solver_s"], m.stats["instrs"], m.stats.get("model_hits", 0)), flush=True)
             if self.time_budget_s and time.time() - self.t0 > self.time_budget_s:
                 raise BoundExceeded("time budget of %ds exhausted at step %d" % (self.time_budget_s, k))
-            if not self.step(k):
+            r_ = self.step(k)
+            if r_ == "retry":
+                r_ = self.step(k, retry=True)
+            if not r_:
                 self.quiescent_at = k
                 break
             k += 1
@@ -646,14 +731,12 @@ class Run:
     def enabled_now(self):
         m = self.m
         parked = [(t, a) for t in m.threads for a in t.alts]
-        rwait = []
-        for t, a in parked:
-            for g, c in self.recv_chans(a):
-                rwait.append((t.tid, AND(a.guard, g), c))
+        rwait = self.receivers_waiting(parked)
         conds = []
         for t, a in parked:
             def waiters(ch, tid=t.tid):
                 return OR(*[g for (tt, g, c) in rwait if tt != tid and c == ch])
+            waiters.tids = lambda ch: set()
             opts = self.options(a, waiters)
             if opts == "quiesce":
                 continue
